@@ -22,15 +22,56 @@ Definition value_result (r : sres) : option (option Z) :=
   | _ => None
   end.
 
+(* ---------- stepping through a body: unfolding equations and evaluation of closed pieces ---------- *)
+Lemma seq_cons step e s t :
+  seq_exec step e (s :: t) = match step e s with SN e1 => seq_exec step e1 t | r => r end.
+Proof. reflexivity. Qed.
+Lemma seq_nil step e : seq_exec step e [] = SN e.
+Proof. reflexivity. Qed.
+Lemma exec_if setf f e init c th el :
+  exec setf (S f) e (SIf init c th el) =
+  match seq_exec (exec setf f) e init with
+  | SN e1 =>
+      match eval setf (S f) e1 c with
+      | EV e2 (VB b) =>
+          if b
+          then match scoped_exec (exec setf f) e2 th with SN e3 => SN (pop_to (List.length e) e3) | r => r end
+          else match scoped_exec (exec setf f) e2 el with SN e3 => SN (pop_to (List.length e) e3) | r => r end
+      | EV _ _ => SStuck | EP e2 w => SP e2 w | EStuck => SStuck
+      end
+  | r => r
+  end.
+Proof. reflexivity. Qed.
+Lemma exec_range setf f e k v x body :
+  exec setf (S f) e (SRange k v x body) =
+  match eval setf (S f) e x with
+  | EV e1 (VSlice l _) => range_loop (fun e' => scoped_exec (exec setf f) e' body) k v e1 0 l
+  | EV _ _ => SStuck | EP e1 w => SP e1 w | EStuck => SStuck
+  end.
+Proof. reflexivity. Qed.
+
+Ltac lz t := eval lazy -[Z.add Z.sub Z.mul Z.ltb Z.leb Z.eqb Z.opp Z.shiftl Z.of_nat Z.to_nat zlen index_of last_index_of
+                          range_loop count_loop app nth_error pal_id pal_value bs_get bs_set bs_new blen
+                          cfg_bits cfg_create pc_get pc_set copy_loop positions zlist_eqb] in t.
+(* evaluate one closed exec / eval / scoped_exec occurrence *)
+Ltac ev1 :=
+  match goal with
+  | |- context [exec ?s ?f ?e ?st] => let r := lz (exec s f e st) in change (exec s f e st) with r
+  | |- context [eval ?s ?f ?e ?x] => let r := lz (eval s f e x) in change (eval s f e x) with r
+  end; cbv beta iota.
+Ltac step := rewrite seq_cons; ev1.
+
+Ltac run_closed := match goal with |- context [run ?s ?f ?r ?a] => let t := lz (run s f r a) in change (run s f r a) with t end; cbv beta iota.
+
 (* ---------- singleValuePalette ---------- *)
 Lemma tie_single_id v0 v :
   id_result exp_singleValuePalette_id (run no_set exp_singleValuePalette_id (VPal (PSingle v0)) [VZ v])
   = Some (pal_id (PSingle v0) v).
-Proof. cbn. destruct (v0 =? v); reflexivity. Qed.
+Proof. run_closed. cbn [pal_id]. destruct (v0 =? v); reflexivity. Qed.
 
 Lemma tie_single_value v0 i :
   value_result (run no_set exp_singleValuePalette_value (VPal (PSingle v0)) [VZ i]) = Some (pal_value (PSingle v0) i).
-Proof. cbn. destruct (i =? 0); reflexivity. Qed.
+Proof. run_closed. cbn [pal_value]. destruct (i =? 0); reflexivity. Qed.
 
 (* ---------- globalPalette ---------- *)
 Lemma tie_global_id v :
@@ -38,7 +79,7 @@ Lemma tie_global_id v :
 Proof. reflexivity. Qed.
 Lemma tie_global_value i :
   value_result (run no_set exp_globalPalette_value (VPal PGlobal) [VZ i]) = Some (pal_value PGlobal i).
-Proof. reflexivity. Qed.
+Proof. run_closed. reflexivity. Qed.
 
 (* ---------- linearPalette ---------- *)
 Definition find_body : list gstmt :=
@@ -53,22 +94,23 @@ Lemma range_find v X f : forall l idx,
   end.
 Proof.
   induction l as [|y t IH]; intros idx; [reflexivity|].
-  cbn [range_loop index_of]. cbn -[range_loop index_of Z.add].
+  cbn [range_loop index_of].
+  match goal with |- context [scoped_exec ?st ?e ?b] => let r := lz (scoped_exec st e b) in change (scoped_exec st e b) with r end.
+  cbv beta iota.
   destruct (Z.eqb_spec y v) as [->|Hne].
   - reflexivity.
-  - cbn -[range_loop index_of Z.add]. apply IH.
+  - cbv beta iota. match goal with |- context [pop_to ?n ?e] => let r := lz (pop_to n e) in change (pop_to n e) with r end. apply IH.
 Qed.
-
-Ltac run_lazy := lazy -[Z.add Z.sub Z.mul Z.ltb Z.leb Z.eqb Z.opp Z.shiftl Z.of_nat Z.to_nat zlen index_of last_index_of range_loop count_loop
-                         app nth_error pal_id pal_value bs_get bs_set bs_new blen cfg_bits cfg_create pc_get pc_set copy_loop positions].
 
 Lemma tie_linear_id vals cap pb v :
   id_result exp_linearPalette_id (run no_set exp_linearPalette_id (VPal (PLinear vals cap pb)) [VZ v])
   = Some (pal_id (PLinear vals cap pb) v).
 Proof.
-  run_lazy. fold find_body.
-  rewrite (range_find v (VPal (PLinear vals cap pb)) 35 vals 0).
-  lazy [pal_id]. destruct (index_of v vals 0) as [r|]; [reflexivity|].
-  run_lazy.
-  destruct (0 <? cap - zlen vals); run_lazy; reflexivity.
+  unfold run, exec_body, run_fuel. cbn [g_recv g_params g_body exp_linearPalette_id bind_all map fst].
+  rewrite seq_cons, exec_range. ev1. fold find_body.
+  rewrite (range_find v (VPal (PLinear vals cap pb)) 7 vals 0).
+  cbn [pal_id]. destruct (index_of v vals 0) as [r|]; [reflexivity|].
+  step. destruct (0 <? cap - zlen vals).
+  - reflexivity.
+  - cbv beta iota. step. reflexivity.
 Qed.
